@@ -38,6 +38,25 @@ def build(spec):
         c2 = Component(f2, inputs=[y1, xs[names[-1]]], outputs=[y2], name='c2', vectorized=True,
                        data_fidelity=(2, 2), training_data=SparseGrid(**sgk))
         return System(c1, c2, name='s')
+    if spec['kind'] in ('twin', 'zero'):
+        # ties: several components with EXACTLY equal (twin: same model, same inputs) or undefined (zero: the surrogate is
+        # identically zero until a mixed index is activated, every indicator is 0/0) error indicators — the choice then rests
+        # on the scan order of the candidates alone
+        w = spec['w']
+        a, b = names[0], names[1]
+
+        def g(inputs):
+            u, v = 2 * inputs[a] - 1, 2 * inputs[b] - 1          # centred coordinates: nodes of levels 0/1 lie on the axes
+            if spec['kind'] == 'zero':
+                return u * v * (1 + w[0] * u + w[1] * v ** 2)
+            return np.exp(w[0] * u) * (1 + w[1] * v) + np.sin(2 * u * v)
+        comps = []
+        for k, cname in enumerate(spec['comp_names']):
+            def f(inputs, _k=k):
+                return {f'y{_k}': g(inputs)}
+            comps.append(Component(f, inputs=[xs[a], xs[b]], outputs=[Variable(f'y{k}')], name=cname, vectorized=True,
+                                   data_fidelity=(2, 2), training_data=SparseGrid(**sgk)))
+        return System(*comps, name='s')
     # feedback loop: a <-> b (two coupling variables), plus several exogenous inputs
     a = Variable('a', domain=(-2.0, 3.0)); b = Variable('b', domain=(-2.0, 3.0)); out = Variable('out')
     w = spec['w']
